@@ -120,6 +120,10 @@ def replay_history(beh, headers):
                 nb = lambda t: [l for l in t.split("\n") if l.strip()]
                 if nb(got) != nb(exp):
                     return {"step": step, "why": "non-blank lines of the serialisation (framing, indentation, order, options) differ from the specification", "expected": exp, "observed": got}
+                # the frame of an EMPTY title consists of empty lines: there the heading block is compared as it stands
+                if kinds[:4] == ["blank", "over", "title", "over"] and outs[k - 1][2]["t"][1] == "" and got.split("\n")[:4] != exp.split("\n")[:4]:
+                    return {"step": step, "why": "the heading of a page with an empty title is not the empty title between its (empty) over- and underline",
+                            "expected": exp, "observed": got}
                 gl = got.split("\n")
                 for j, l in enumerate(gl):
                     if l.strip().startswith(":opt") and j > 0 and not (gl[j - 1].strip().startswith(".. dir") or gl[j - 1].strip().startswith(":opt")):
